@@ -321,11 +321,16 @@ def run_entry_points(data, which=(0, 1, 2), trace=True):
 
 
 @bounded("single-faults-and-truncation", props=["C13"],
-         bound="three feature-covering seed documents (classic table + inherited attributes + simple font/Differences + outlines + labels + PNG-predictor image + form; "
+         bound="eight seed documents (classic table + inherited attributes + simple font/Differences + outlines + labels + PNG-predictor image + form; "
                "xref stream + object streams + Type0/ToUnicode/W + inline image + ICC colour space; one image per filter LZW/RunLength/ASCIIHex/ASCII85/LZW+TIFF predictor + "
-               "filter chain with indirect Length). quick: every single fault once through extract_text (alarm only), and every self-reference and chain-into-cycle fault plus 500 seeded single faults through all three entry points with line counting, out of all (site x {15 replacement values, remove}) and stream-payload faults "
-               "(truncate, corrupt, empty) + truncation at a stride of 1/60 of the file and at every byte around each trailer/xref/stream keyword; thorough: every fault and every truncation point. Entry points extract_text, extract_pages, "
-               "extract_text_to_fp(xml); work is measured as executed source lines (settrace) against the bound 300 x bytes + 300 000 (undamaged seeds need about 18 per byte), with a 10 s alarm behind it")
+               "filter chain with indirect Length; page contents, a form and a ToUnicode map behind LZW / RunLength / ASCII85 / a chain; a TrueType file (cmap formats 4 and 6) and a "
+               "Type 1 font file; RC4-128, AES-128 and AES-256 encrypted documents opened with the empty user password). Faults: site x {15 replacement values, remove}; "
+               "stream payloads x {5 truncations, 4 corruptions, garbage x 2, all-FF, all-zero, empty, seeded random damage x 6 (thorough 60)}; file truncation; single bytes of the file changed. "
+               "quick: every structural and payload fault once and 250 seeded byte changes per document through extract_text (alarm only), every self-reference and chain-into-cycle fault plus 500 "
+               "seeded faults through all three entry points with line counting, truncation at a stride of 1/60 of the file and around each trailer/xref/stream keyword; thorough: every fault, every "
+               "truncation point and every byte of every document changed two ways, through all three entry points. Entry points extract_text, extract_pages, "
+               "extract_text_to_fp(xml); work is measured as executed source lines (settrace) against the bound 300 x bytes + 300 000 (undamaged seeds need about 18 per byte), with a 10 s alarm behind it. "
+               "A fault that leaves the file unchanged is counted and must stay rare (vacuity guard)")
 def _(tier, seed):
     import random
     rng = random.Random(seed + 13)
@@ -335,6 +340,7 @@ def _(tier, seed):
     cases, trunc = [], []
     hangs = 0
     bases, unchanged = {}, 0
+    flips_light = []          # quick tier: byte flips go through extract_text only, with the alarm but without line counting
     for nm, m in models.items():
         base = write_model(m)
         bases[nm] = base
@@ -360,6 +366,11 @@ def _(tier, seed):
             for m_ in _re.finditer(rb"trailer|startxref|xref|endstream|stream|%%EOF", base):
                 cuts.update(range(max(0, m_.start() - 1), min(len(base), m_.end() + 3)))
         trunc.extend((nm, None, None, "truncate-file", cut, None) for cut in sorted(cuts))
+        # single bytes of the file changed, wherever they lie (keywords, numbers, cross-reference tables and streams, compressed payloads, encrypted strings)
+        positions = range(0, len(base)) if tier != "quick" else sorted(rng.sample(range(len(base)), min(len(base), 250)))
+        for pos in positions:
+            for val in ((base[pos] ^ 0x20, base[pos] ^ 0xFF) if tier != "quick" else (base[pos] ^ rng.choice([0x01, 0x20, 0x80, 0xFF]),)):
+                (trunc if tier != "quick" else flips_light).append((nm, None, None, "flip-file-byte", pos, val))
     allcases = list(cases)
     if tier == "quick":
         # every reference fault (self, cycle: the ones that can hang or exhaust the stack) plus a seeded sample of the others
@@ -371,7 +382,7 @@ def _(tier, seed):
     if tier == "quick":
         # every single fault at least once: through extract_text only, with the alarm but without line counting (about 2 ms each)
         chosen = set(map(id, cases))
-        light = [c_ for c_ in allcases if id(c_) not in chosen]
+        light = [c_ for c_ in allcases if id(c_) not in chosen] + flips_light
         lightset = set(map(id, light))
     cases += trunc
     for case in cases + light:
@@ -381,6 +392,11 @@ def _(tier, seed):
         if kind == "truncate-file":
             data = write_model(m)[:vn]
             desc = "file truncated to %d bytes" % vn
+        elif kind == "flip-file-byte":
+            data = bytearray(bases[nm])
+            data[vn] = v
+            data = bytes(data)
+            desc = "byte %d of the file changed from 0x%02x to 0x%02x" % (vn, bases[nm][vn], v)
         else:
             try:
                 faulted = apply_fault(m["objs"], num, path, kind, v)
